@@ -67,6 +67,7 @@ pub async fn do_append(ctx: &mut Ctx, w: &mut World, tx: &GenTx) -> String {
             if dt < Duration::from_micros(200) { ctx.stat("ack_faster_than_200us"); }
         }
         (Ok(Err(_)), Err(class)) => {
+            for e in &tx.events { if w.failed.len() < 400 { w.failed.push((e.id, e.idx, tx.pid)); } }
             let got = line.trim_start_matches("err ");
             if got != *class { ctx.stat(&format!("reject_class_differs_{got}_vs_{class}")); }
             // C19: never rejected for space when it fits an empty segment — TooLarge is by the estimate
@@ -174,7 +175,9 @@ pub async fn do_reads(ctx: &mut Ctx, w: &mut World, n: usize) {
         } else if k < 80 {
             // event lookup / transaction read
             let ids: Vec<uuid::Uuid> = w.spec.by_id.keys().copied().collect();
-            let (id, label, pid) = if !ids.is_empty() && ctx.rng.chance(9, 10) { let mut v = ids; v.sort(); let id = v[ctx.rng.below(v.len() as u64) as usize]; let s = &w.spec.by_id[&id]; (id, format!("e{}", s.idx), s.pid) }
+            let from_failed = !w.failed.is_empty() && ctx.rng.chance(1, 4);
+            let (id, label, pid) = if from_failed { let f = w.failed[ctx.rng.below(w.failed.len() as u64) as usize]; ctx.stat("read_failed_tx_event"); (f.0, format!("e{}", f.1), f.2) }
+                else if !ids.is_empty() && ctx.rng.chance(9, 10) { let mut v = ids; v.sort(); let id = v[ctx.rng.below(v.len() as u64) as usize]; let s = &w.spec.by_id[&id]; (id, format!("e{}", s.idx), s.pid) }
                 else { (sierradb::id::uuid_v7_with_partition_hash(3), "e-unknown".to_string(), 3) };
             let op = format!("st read pid={pid} {label}"); w.hist.push(op.clone());
             let res = w.db.as_ref().unwrap().read_transaction(pid, id).await;
@@ -194,6 +197,7 @@ pub async fn do_reads(ctx: &mut Ctx, w: &mut World, n: usize) {
                 }
                 (Some(_), _) => { ctx.oracle_fail(&format!("C01:{}", w.key), &format!("acknowledged event {label} not returned by event lookup: {line}"), &w.hist); }
                 (None, Ok(None)) => {}
+                (None, _) if from_failed => { ctx.oracle_fail(&format!("C04:{}", w.key), &format!("lookup of {label}, an event of a transaction that failed (no commit record was ever written), returned {line}"), &w.hist); }
                 (None, _) => { ctx.oracle_fail(&format!("C02:{}", w.key), &format!("lookup of an id that was never stored returned {line}"), &w.hist); }
             }
             ctx.stat("read_event");
